@@ -1,8 +1,8 @@
 /*!
  * C06 (unit "stress") - derivative helpers of finite strain stress measures:
  * push-forward derivatives, Cauchy <-> Kirchhoff stress derivative
- * conversions, conversions to / from the derivative of the first
- * Piola-Kirchhoff stress.
+ * conversions (the conversions to / from the derivative of the first
+ * Piola-Kirchhoff stress are in C06_pk1.cxx).
  * A smooth symmetric stress function of the deformation gradient is generated
  *   sigma(F) = S0 + c1 F.F^T + c2 det(F) sym(F) + c3 (F^T.F)^2
  * (resp. a second Piola-Kirchhoff stress S(E) = S0 + C:E + c E^2 of the
@@ -19,8 +19,6 @@
 #include "TFEL/Math/st2tost2.hxx"
 #include "TFEL/Math/t2tot2.hxx"
 #include "TFEL/Math/t2tost2.hxx"
-#include "TFEL/Math/T2toT2/ConvertToPK1Derivative.hxx"
-#include "TFEL/Math/T2toT2/ConvertFromPK1Derivative.hxx"
 
 using namespace tfel::math;
 
@@ -146,65 +144,6 @@ namespace {
                "computeCauchyStressDerivativeFromKirchhoffStressDerivative (out)");
   }
 
-  template <unsigned short N>
-  void pk1(verif::Case& c) {
-    using T = double;
-    using TT = tensor<N, T>;
-    using S = stensor<N, T>;
-    using SS = st2tost2<N, T>;
-    using TS = t2tost2<N, T>;
-    using TTt = t2tot2<N, T>;
-    TT F;
-    const Setup u = setup(c, N, F);
-    const Sigma sig = genSigma(c, N, u.ss);
-    const S s = gen::toStensor<S>(sig(u.F));
-    const M3 Sm = gen::stensorToM3(s);
-    const R h = 1e-4L, rel = 1e-9L;
-    const R nS = std::max<R>(ref::norm(Sm), u.ss);
-    // P = J sigma F^-T
-    const auto P = [&](const M3& x) {
-      return ref::det(x) * (sig(x) * ref::transpose(ref::inverse(x)));
-    };
-    const T4 dsr = fd::jacobian(sig, u.F, h, N, NS);
-    const TS ds = f4::fromT4<TS>(dsr, N, SYM, NS);
-    const R nds = std::max<R>(ref::norm(dsr), u.ss);
-    const R S1 = u.J * u.nI * (nds + 2 * nS * u.nI);
-    fd::check4(c, TTt(convertCauchyStressDerivativeToFirstPiolaKirchoffStressDerivative(ds, F, s)),
-               N, NS, NS, P, u.F, h, S1, rel, u.dir, "C06.stress.pk1_from_cauchy",
-               "convertCauchyStressDerivativeToFirstPiolaKirchoffStressDerivative");
-    // tau = P F^T from dP/dF (dP is the derivative of a P consistent with a symmetric tau)
-    const T4 dPr = fd::jacobian(P, u.F, h, N, NS);
-    const TTt dP = f4::fromT4<TTt>(dPr, N, NS, NS);
-    const auto tau = [&](const M3& x) { return ref::det(x) * sig(x); };
-    const R S2 = u.nF * std::max<R>(ref::norm(dPr), u.ss) + u.J * nS * u.nI;
-    fd::check4(c, TS(convertFirstPiolaKirchoffStressDerivativeToKirchhoffStressDerivative(dP, F, s)),
-               N, SYM, NS, tau, u.F, h, S2, rel, u.dir, "C06.stress.kirchhoff_from_pk1",
-               "convertFirstPiolaKirchoffStressDerivativeToKirchhoffStressDerivative");
-    // second Piola-Kirchhoff stress function of the Green-Lagrange strain
-    const SS Cm = f4::fromT4<SS>(f4::gen(c, N, SYM, SYM, static_cast<double>(u.ss)), N, SYM, SYM);
-    const T4 Cr = f4::toT4(Cm, N, SYM, SYM);
-    const M3 S0 = gen::sym(c, N, static_cast<double>(u.ss));
-    const R cq = u.ss * c.sreal(1., "cq");
-    const auto S_of_E = [&](const M3& e) { return S0 + ref::ddot(Cr, e) + cq * (e * e); };
-    const auto E_of_F = [](const M3& x) { return R(0.5) * (ref::transpose(x) * x - M3::Id()); };
-    const M3 E = E_of_F(u.F);
-    const T4 dSdEr = fd::jacobian(S_of_E, E, h, N, SYM);
-    const SS dSdE = f4::fromT4<SS>(dSdEr, N, SYM, SYM);
-    const auto P2 = [&](const M3& x) { return x * S_of_E(E_of_F(x)); };
-    // third argument: the Cauchy stress sigma = F.S.F^T / J
-    const M3 S2m = S_of_E(E);
-    const S s2 = gen::toStensor<S>((1 / u.J) * (u.F * S2m * ref::transpose(u.F)));
-    const R nS2 = std::max<R>(ref::norm(S2m), u.ss);
-    const R S3 = nS2 + u.nF * u.nF * std::max<R>(ref::norm(dSdEr), u.ss);
-    fd::check4(
-        c,
-        TTt(convertSecondPiolaKirchhoffStressDerivativeToFirstPiolaKirchoffStressDerivative(dSdE, F,
-                                                                                            s2)),
-        N, NS, NS, P2, u.F, h, S3, rel * u.nF * u.nI * u.nF * u.nI, u.dir,
-        "C06.stress.pk1_from_pk2",
-        "convertSecondPiolaKirchhoffStressDerivativeToFirstPiolaKirchoffStressDerivative");
-  }
-
 }  // namespace
 
 VERIF_SUB_W(pushforward_1d, 0.5) { pushforward<1u>(c); }
@@ -213,8 +152,5 @@ VERIF_SUB(pushforward_3d) { pushforward<3u>(c); }
 VERIF_SUB_W(kirchhoff_1d, 0.5) { kirchhoff<1u>(c); }
 VERIF_SUB(kirchhoff_2d) { kirchhoff<2u>(c); }
 VERIF_SUB(kirchhoff_3d) { kirchhoff<3u>(c); }
-VERIF_SUB_W(pk1_1d, 0.5) { pk1<1u>(c); }
-VERIF_SUB(pk1_2d) { pk1<2u>(c); }
-VERIF_SUB(pk1_3d) { pk1<3u>(c); }
 
 VERIF_MAIN("C06_stress")
